@@ -2357,6 +2357,8 @@ def _has_quantifier(e, _cache={}) -> bool:
         x = todo.pop()
         if z3.is_quantifier(x):
             return True
+        if z3.is_app(x) and x.decl().name().startswith('spec_') and x.num_args() > 0:
+            return True  # recursive spec functions are kept out of the quick feasibility checks
         i = x.get_id()
         if i in seen:
             continue
